@@ -333,14 +333,16 @@ example : degreeMV ([(4, []), (6, [(1, 1)]), (9, [(0, 1), (1, 1)]), (2, [(0, 2)]
 /-! ### (f) the verifier decides exactly `defect = 0`; changed claims are refused -/
 
 /-- **`check` is the published relation.** Whenever the accumulation does not run out of
-challenges and the proof has no more witnesses than the key has `beta_h` / the point has
+challenges, the proof has exactly one witness per key variable (otherwise the code returns
+`IncorrectInputLength`) and no more witnesses than the key has `beta_h` / the point has
 coordinates (otherwise the code panics), `check` accepts iff the explicit defect
 `(Σξⱼ(Cⱼ − vⱼ·g) − rv·γ)·h − Σᵢ Wᵢ·(βᵢh − zᵢ·h)` is zero — for an arbitrary verifier key. -/
 theorem check_iff_defect (vk : PST.VK F) (cs z vs : List F) (π : PST.Proof F) (ξs : List F)
     (a : F × F × List F) (hacc : PST.accumulate 0 0 cs vs ξs = .ok a)
+    (hnv : π.w.length = vk.numVars)
     (hlen : π.w.length ≤ vk.betaH.length ∧ π.w.length ≤ z.length) :
     PST.check vk cs z vs π ξs = .ok true ↔ PST.defect vk cs z vs π ξs = 0 :=
-  PST.check_iff_defect vk cs z vs π ξs a hacc hlen
+  PST.check_iff_defect vk cs z vs π ξs a hacc hnv hlen
 
 /-- non-vacuity: the accumulation of the example claim succeeds (`27·13`, `3·13` in `ZMod 101`) -/
 example : PST.accumulate (0 : K) 0 [27] [3] [13] = .ok (48, 39, []) := by decide
